@@ -732,4 +732,293 @@ Proof.
   - cbn [fst]. eapply inv_struct; eauto.
 Qed.
 
+(* ---------- reset_chemicals(new) ... reset_chemicals(old, container) ---------- *)
+Lemma inv_extend h h' a c :
+  Inv h -> streams h' = streams h -> arrs h' = arrs h ++ a -> caches h' = caches h ++ c -> Inv h'.
+Proof.
+  intros I S A C j s2 H2. rewrite S in H2.
+  destruct (I j s2 H2) as ((WC & WA) & (VM & VV) & SH).
+  assert (ES : srcs h' s2 = srcs h s2).
+  { apply srcs_ext. intros M. unfold getarr. rewrite A. apply nth_app_lt. auto. }
+  assert (EC : getcache h' (cch s2) = getcache h (cch s2)).
+  { unfold getcache. rewrite C. apply nth_app_lt. auto. }
+  split; [|split].
+  - split. rewrite C, app_length. lia. intros M. rewrite A, app_length. specialize (WA M). lia.
+  - unfold views_ok. rewrite EC. split; intros v Hv.
+    + eapply mass_ok_ext; [exact ES|]. apply VM; auto.
+    + eapply vol_ok_ext; [exact ES|]. apply VV; auto.
+  - rewrite S. exact SH.
+Qed.
+
+Lemma put_rows_struct l : forall h vals,
+  arrs (put_rows h l vals) = arrs h /\ caches (put_rows h l vals) = caches h /\ streams (put_rows h l vals) = streams h.
+Proof.
+  induction l as [|d l IH]; intros h [|v vals]; simpl; auto.
+  destruct (IH (put_row h d v) vals) as (A & B & C). simpl in *. auto.
+Qed.
+
+Lemma reset_none_shape h i s k :
+  exists a s1, streams (fst (reset_chemicals pkgs h i s k None)) = upd (streams h) i s1 /\
+    arrs (fst (reset_chemicals pkgs h i s k None)) = arrs h ++ a /\
+    caches (fst (reset_chemicals pkgs h i s k None)) = caches h ++ [cache0] /\
+    multi s1 = multi s /\ pbox s1 = pbox s /\ phs s1 = phs s /\ tc s1 = tc s /\
+    snd (reset_chemicals pkgs h i s k None) = (sdata s, cch s).
+Proof.
+  unfold reset_chemicals. cbn [new_cache fst snd]. destruct (multi s) eqn:M.
+  - frame_rows (set_caches h (caches h ++ [cache0]))
+               (map (remap (chems pkgs (pkg s)) (chems pkgs k)) (all_rows h s)) rs h2.
+    cbn [new_arr fst snd]. eexists [rs], _. simpl. rewrite FA, FC, FS. simpl.
+    split; [reflexivity|]. repeat split; auto.
+  - cbn [new_row fst snd]. eexists [], _. simpl. rewrite app_nil_r.
+    split; [reflexivity|]. repeat split; auto.
+Qed.
+
+Lemma inv_round_trip h i s k :
+  Inv h -> nth_error (streams h) i = Some s -> Inv (fst (round_trip pkgs h i s k)).
+Proof.
+  intros I Hs. unfold round_trip. destruct (Nat.eqb (pkg s) k); [exact I|].
+  destruct (reset_none_shape h i s k) as (a & s1 & S1 & A1 & C1 & M1 & B1 & P1 & T1 & CONT).
+  destruct (reset_chemicals pkgs h i s k None) as [h1 cont]. cbn [fst snd] in *. subst cont.
+  assert (LI : (i < length (streams h))%nat) by (eapply nth_error_lt; eauto).
+  rewrite S1, nth_error_upd_same by auto.
+  assert (BACK : mkstream (multi s1) (sdata s) (pbox s1) (phs s1) (pkg s) (cch s) (tc s1) = s).
+  { rewrite M1, B1, P1, T1. destruct s; reflexivity. }
+  assert (I2 : Inv (put_stream h1 i s)).
+  { eapply inv_extend with (h := h) (a := a) (c := [cache0]); eauto. simpl.
+    rewrite S1, upd_upd. apply upd_same. exact Hs. }
+  unfold reset_chemicals. rewrite BACK. cbn [fst].
+  destruct (multi s1).
+  - cbn [fst].
+    destruct (put_rows_struct (getarr (put_stream h1 i s) (sdata s))
+               (map_rows (put_stream h1 i s) (fun _ => vzero (nchem pkgs (pkg s))) (getarr (put_stream h1 i s) (sdata s)))
+               (map (remap (chems pkgs (pkg s1)) (chems pkgs (pkg s))) (all_rows h1 s1))) as (A & B & C).
+    destruct (map_rows_struct (put_stream h1 i s) (fun _ => vzero (nchem pkgs (pkg s)))
+                (getarr (put_stream h1 i s) (sdata s))) as (A' & B' & C').
+    eapply inv_struct; [| | |exact I2]; congruence.
+  - cbn [fst]. eapply inv_struct; [| | |exact I2]; reflexivity.
+Qed.
+
+(* ---------- every operation keeps the invariant; so does every history ---------- *)
+Lemma inv_step h o : Inv h -> Inv (fst (step Vf MWf pkgs utab h o)).
+Proof.
+  intros I. unfold step.
+  destruct o as [ |i w|i w|i|i u r k|i u r k v|i u|i u v|i w r k v|i w v|i v|i v|i p|i l|i j f p t|i|i j|i k|i k];
+    try exact I;
+    (destruct (nth_error (streams h) i) as [s|] eqn:Hs; [|exact I]).
+  - destruct w; [exact I| |].
+    + pose proof (inv_read_mass h i s I Hs) as X. destruct (read_mass MWf pkgs h s). exact X.
+    + pose proof (inv_read_vol h i s I Hs) as X. destruct (read_vol Vf pkgs h s). exact X.
+  - exact I.
+  - pose proof (inv_alias_flags h i s I Hs) as X. destruct (alias_flags h s). exact X.
+  - destruct (unit_of utab u) as [[w f]|]; [|exact I]. unfold lift.
+    pose proof (inv_get_item h i s w r k I Hs) as X.
+    destruct (get_item Vf MWf pkgs h s w r k) as [h1 [x|e]]; exact X.
+  - destruct (unit_of utab u) as [[w f]|]; [|exact I]. apply inv_set_item with (i := i); auto.
+  - destruct (unit_of utab u) as [[w f]|]; exact I.
+  - destruct (unit_of utab u) as [[w f]|]; [|exact I]. apply inv_set_total with (i := i); auto.
+  - apply inv_set_item with (i := i); auto.
+  - apply inv_set_total with (i := i); auto.
+  - cbn [fst]. eapply inv_struct; eauto.
+  - cbn [fst]. eapply inv_struct; eauto.
+  - apply inv_set_phase; auto.
+  - apply inv_set_phases; auto.
+  - destruct (nth_error (streams h) j) as [o|] eqn:Ho; [|exact I].
+    destruct (Nat.eqb i j) eqn:Q; [exact I|]. apply Nat.eqb_neq in Q.
+    apply inv_link; auto. exists j. split; auto.
+  - apply inv_unlink; auto.
+  - destruct (nth_error (streams h) j) as [o|]; [|exact I]. apply inv_copy_like; auto.
+  - apply inv_reset_thermo; auto.
+  - apply inv_round_trip; auto.
+Qed.
+
+Lemma inv_run ops : forall h, Inv h -> Inv (fst (run Vf MWf pkgs utab h ops)).
+Proof.
+  induction ops as [|o ops IH]; intros h I; simpl; auto.
+  pose proof (inv_step h o I) as I1. destruct (step Vf MWf pkgs utab h o) as [h1 x]. cbn [fst] in I1.
+  specialize (IH h1 I1). destruct (run Vf MWf pkgs utab h1 ops) as [h2 xs]. exact IH.
+Qed.
+
+Lemma inv_heap0 : Inv heap0.
+Proof. intros [|i] s H; discriminate. Qed.
+
+Lemma inv_add_stream h x : Inv h -> Inv (add_stream h x).
+Proof.
+  intros I. destruct x as [k p T P flow|k l T P flow]; unfold add_stream.
+  - cbn [new_row new_box new_cache new_tp fst snd].
+    intros j s2 H2. simpl in H2.
+    assert (OLDI : Inv (mkheap (rows h ++ [flow]) (arrs h) (tps h ++ [(T, P)]) (boxes h ++ [p]) (caches h ++ [cache0]) (streams h))).
+    { eapply inv_extend with (h := h) (a := []) (c := [cache0]); eauto. simpl. rewrite app_nil_r. reflexivity. }
+    destruct (Nat.lt_ge_cases j (length (streams h))) as [L|G].
+    + rewrite nth_error_app1 in H2 by auto.
+      destruct (OLDI j s2 H2) as (W & V & SH). split; [exact W|split; [exact V|]].
+      intros j' s3 H3 EQ. simpl in H3.
+      destruct (Nat.lt_ge_cases j' (length (streams h))) as [L'|G'].
+      * rewrite nth_error_app1 in H3 by auto. eapply SH; eauto.
+      * rewrite nth_error_app2 in H3 by auto.
+        destruct (j' - length (streams h))%nat as [|n]; simpl in H3; [|destruct n; discriminate].
+        inversion H3; subst s3. simpl in EQ. destruct (I j s2 H2) as ((WC & _) & _). lia.
+    + rewrite nth_error_app2 in H2 by auto.
+      destruct (j - length (streams h))%nat as [|n]; simpl in H2; [|destruct n; discriminate].
+      inversion H2; subst s2. split; [|split].
+      * split; simpl. rewrite app_length; simpl; lia. discriminate.
+      * unfold views_ok, getcache; simpl. rewrite nth_middle. simpl. split; intros v Hv; discriminate.
+      * intros j' s3 H3 EQ. simpl in H3, EQ.
+        destruct (Nat.lt_ge_cases j' (length (streams h))) as [L'|G'].
+        -- rewrite nth_error_app1 in H3 by auto. destruct (I j' s3 H3) as ((WC & _) & _). lia.
+        -- rewrite nth_error_app2 in H3 by auto.
+           destruct (j' - length (streams h))%nat as [|n]; simpl in H3; [|destruct n; discriminate].
+           inversion H3. apply same_owner_refl.
+  - frame_rows h flow rs h1. cbn [new_arr new_cache new_tp fst snd].
+    intros j s2 H2. simpl in H2. rewrite FS in H2.
+    assert (OLDI : Inv (mkheap (rows h1) (arrs h1 ++ [rs]) (tps h1 ++ [(T, P)]) (boxes h1) (caches h1 ++ [cache0]) (streams h))).
+    { eapply inv_extend with (h := h) (a := [rs]) (c := [cache0]); eauto; simpl; congruence. }
+    destruct (Nat.lt_ge_cases j (length (streams h))) as [L|G].
+    + rewrite nth_error_app1 in H2 by auto.
+      destruct (OLDI j s2 H2) as (W & V & SH). split; [exact W|split; [exact V|]].
+      intros j' s3 H3 EQ. simpl in H3. rewrite FS in H3.
+      destruct (Nat.lt_ge_cases j' (length (streams h))) as [L'|G'].
+      * rewrite nth_error_app1 in H3 by auto. eapply SH; eauto.
+      * rewrite nth_error_app2 in H3 by auto.
+        destruct (j' - length (streams h))%nat as [|n]; simpl in H3; [|destruct n; discriminate].
+        inversion H3; subst s3. simpl in EQ. destruct (I j s2 H2) as ((WC & _) & _). rewrite FC in EQ. lia.
+    + rewrite nth_error_app2 in H2 by auto.
+      destruct (j - length (streams h))%nat as [|n]; simpl in H2; [|destruct n; discriminate].
+      inversion H2; subst s2. split; [|split].
+      * split; simpl. rewrite app_length; simpl; lia. intros _. rewrite app_length; simpl; lia.
+      * unfold views_ok, getcache; simpl. rewrite nth_middle. simpl. split; intros v Hv; discriminate.
+      * intros j' s3 H3 EQ. simpl in H3, EQ. rewrite FS in H3.
+        destruct (Nat.lt_ge_cases j' (length (streams h))) as [L'|G'].
+        -- rewrite nth_error_app1 in H3 by auto. destruct (I j' s3 H3) as ((WC & _) & _). rewrite FC in EQ. lia.
+        -- rewrite nth_error_app2 in H3 by auto.
+           destruct (j' - length (streams h))%nat as [|n]; simpl in H3; [|destruct n; discriminate].
+           inversion H3. apply same_owner_refl.
+Qed.
+
+Lemma inv_build l : Inv (build l).
+Proof.
+  unfold build. assert (G : forall h, Inv h -> Inv (fold_left add_stream l h)).
+  { induction l as [|x l IH]; intros h I; simpl; auto. apply IH. apply inv_add_stream. exact I. }
+  apply G. apply inv_heap0.
+Qed.
+
+(* ---------- what the views return ---------- *)
+Lemma nth_error_map_inv {A B} (f : A -> B) l n y :
+  nth_error (map f l) n = Some y -> exists x, nth_error l n = Some x /\ f x = y.
+Proof.
+  revert n; induction l as [|a l IH]; intros [|n] H; simpl in *; try discriminate.
+  - inversion H. eauto.
+  - eauto.
+Qed.
+Lemma nth_map_some {A B} (f : A -> B) l n x d : nth_error l n = Some x -> nth n (map f l) d = f x.
+Proof.
+  revert n; induction l as [|a l IH]; intros [|n] H; simpl in *; try discriminate.
+  - inversion H; auto.
+  - auto.
+Qed.
+
+Lemma vol_get_lemma h i s :
+  Inv h -> nth_error (streams h) i = Some s ->
+  forall n d src, nth_error (srcs h s) n = Some (d, src) -> forall j,
+    nthq (nth n (snd (read_vol Vf pkgs h s)) []) j
+    == nthq (getrow h d) j *
+       (1000 * Vf (gid pkgs (pkg s) j) (base (src_phase h src)) (fst (gettp h (tc s))) (snd (gettp h (tc s)))).
+Proof.
+  intros I Hs n d src Hn j. unfold read_vol.
+  destruct (by_volume_ok h i s I Hs) as (A & B & C & F).
+  destruct (read_vrows_ok h (by_volume h s) (pkg s) C _ F) as (_ & _ & V).
+  rewrite <- A in Hn. apply nth_error_map_inv in Hn. destruct Hn as (r & Hr & Er).
+  specialize (V n r Hr j).
+  destruct (read_vrows Vf pkgs h (by_volume h s) (vv_rows (by_volume h s))) as [m rs]. cbn [fst snd] in *.
+  rewrite V. unfold Vcur. rewrite B. unfold vsrc in Er. inversion Er; subst. reflexivity.
+Qed.
+
+Lemma mass_get_lemma h i s :
+  Inv h -> nth_error (streams h) i = Some s ->
+  forall n d src, nth_error (srcs h s) n = Some (d, src) ->
+  length (getrow h d) = length (mwvec MWf pkgs (pkg s)) -> forall j,
+    nthq (nth n (snd (read_mass MWf pkgs h s)) []) j == nthq (getrow h d) j * nthq (mwvec MWf pkgs (pkg s)) j.
+Proof.
+  intros I Hs n d src Hn L j. unfold read_mass.
+  destruct (inv_by_mass h i s I Hs) as (_ & (A & B) & R & _).
+  destruct (by_mass h s) as [h1 v]. cbn [fst snd] in *.
+  rewrite <- A in Hn. rewrite (nth_map_some _ _ _ _ _ Hn). cbn [fst].
+  unfold mass_of, getrow. rewrite R, B. apply nthq_vmul. exact L.
+Qed.
+
+Lemma nthq_map_Qred l k : nthq (map Qred l) k == nthq l k.
+Proof.
+  revert k; induction l as [|a l IH]; intros [|k]; unfold nthq in *; simpl; try reflexivity.
+  - apply Qred_correct.
+  - apply IH.
+Qed.
+
+Lemma getrow_put_item_eq h d k x :
+  (d < length (rows h))%nat -> (k < length (getrow h d))%nat -> nthq (getrow (put_item h d k x) d) k == x.
+Proof.
+  intros D K. unfold put_item, put_row, getrow; simpl. rewrite nth_upd_eq by auto.
+  rewrite nthq_map_Qred. rewrite nth_upd_same by exact K. reflexivity.
+Qed.
+Lemma getrow_put_item_other h d k x d' k' :
+  (d', k') <> (d, k) -> nthq (getrow (put_item h d k x) d') k' == nthq (getrow h d') k'.
+Proof.
+  intros N. unfold put_item, put_row, getrow; simpl.
+  destruct (Nat.eq_dec d d') as [E|NE].
+  - subst d'. destruct (Nat.lt_ge_cases d (length (rows h))) as [L|G].
+    + rewrite nth_upd_eq by auto. rewrite nthq_map_Qred. rewrite nth_upd_other; [reflexivity|congruence].
+    + assert (U : upd (rows h) d (map Qred (upd (nth d (rows h) []) k x)) = rows h).
+      { clear - G. revert d G. induction (rows h) as [|a l IH]; intros [|d] G; simpl in *; auto; try lia. f_equal. apply IH. lia. }
+      rewrite U. reflexivity.
+  - rewrite nth_upd_neq by auto. reflexivity.
+Qed.
+
+Lemma mass_set_lemma h i s r k v d src :
+  Inv h -> nth_error (streams h) i = Some s -> nth_error (srcs h s) r = Some (d, src) ->
+  (d < length (rows h))%nat -> (k < length (getrow h d))%nat ->
+  snd (set_item Vf MWf pkgs h s VMass r k v) = XNone /\
+  nthq (getrow (fst (set_item Vf MWf pkgs h s VMass r k v)) d) k == v / MWf (gid pkgs (pkg s) k) /\
+  forall d' k', (d', k') <> (d, k) ->
+    nthq (getrow (fst (set_item Vf MWf pkgs h s VMass r k v)) d') k' == nthq (getrow h d') k'.
+Proof.
+  intros I Hs Hr D K. unfold set_item.
+  destruct (inv_by_mass h i s I Hs) as (_ & (A & B) & R & _).
+  destruct (by_mass h s) as [h1 mv]. cbn [fst snd] in *.
+  rewrite <- A in Hr. rewrite Hr. cbn [fst snd]. rewrite B.
+  assert (G : forall d0, getrow h1 d0 = getrow h d0) by (intros; unfold getrow; rewrite R; reflexivity).
+  split; [reflexivity|split].
+  - apply getrow_put_item_eq. rewrite R; auto. rewrite G; auto.
+  - intros d' k' N. rewrite getrow_put_item_other by auto. rewrite G. reflexivity.
+Qed.
+
+(* totals *)
+Lemma qsum_vmul_comm a : forall b, qsum (vmul a b) == qsum (vmul b a).
+Proof.
+  induction a as [|x a IH]; intros [|y b]; simpl; try reflexivity.
+  unfold vmul in *. simpl. rewrite IH. lra.
+Qed.
+Lemma F_mass_is_sum h s :
+  F_mass MWf pkgs h s == qsum (map (fun r => qsum (mass_of MWf pkgs (pkg s) r)) (all_rows h s)).
+Proof.
+  unfold F_mass. induction (all_rows h s) as [|r l IH]; simpl; [reflexivity|].
+  rewrite IH. unfold vdot, mass_of. rewrite qsum_vmul_comm. reflexivity.
+Qed.
+
+(* scaling keeps the composition: every entry of every row is multiplied by the same number *)
+Lemma map_rows_scale k l : NoDup l -> forall h d, In d l -> (d < length (rows h))%nat ->
+  forall j, nthq (getrow (map_rows h (vscale k) l) d) j == k * nthq (getrow h d) j.
+Proof.
+  induction l as [|a l IH]; intros ND h d IN L j; simpl in *; [contradiction|].
+  inversion ND as [|? ? NI ND']; subst.
+  assert (KEEP : forall l' h' x, ~ In x l' -> getrow (map_rows h' (vscale k) l') x = getrow h' x).
+  { induction l' as [|b l' IH']; intros h' x NX; simpl; auto.
+    rewrite IH' by (intros Q; apply NX; right; exact Q).
+    unfold getrow, put_row; simpl. apply nth_upd_neq. intros Q. apply NX. left. exact Q. }
+  destruct IN as [E|IN].
+  - subst a. rewrite KEEP by auto. unfold getrow, put_row; simpl. rewrite nth_upd_eq by auto.
+    rewrite nthq_map_Qred. apply nthq_vscale.
+  - rewrite IH; auto.
+    + assert (NE : a <> d) by (intros Q; subst; contradiction).
+      unfold getrow, put_row; simpl. rewrite nth_upd_neq by auto. reflexivity.
+    + unfold put_row; simpl. rewrite upd_length. exact L.
+Qed.
+
 End Proofs.
